@@ -207,7 +207,7 @@ PROPS = {
         "assumptions": ["as C01"],
     },
     "C03": {
-        "level_text": 'as C01 for the third and fourth central sums (chain transcription with the OLD lower sums) and the skewness/kurtosis accessors incl. their zero shortcuts; histories of arbitrary full-mantissa f64 values recorded from the real estimators, every value logged as the exact dyadic rational it is, validated by TLC against Trace_Moments.tla: exact statistics from additive power sums in unbounded rational arithmetic (Big / BigQ / BigStats, checked against Exact.tla and TLC integers by MC_Big / MC_BigStats), envelope decided as an exact rational inequality',
+        "level_text": 'as C01 for the third and fourth central sums (chain transcription with the OLD lower sums) and the skewness/kurtosis accessors incl. their zero shortcuts; histories of arbitrary full-mantissa f64 values recorded from the real estimators, every value logged as the exact dyadic rational it is, validated by TLC against Trace_Moments.tla: exact statistics from additive power sums in unbounded rational arithmetic (Big / BigQ / BigStats, checked against Exact.tla and TLC integers by MC_Big / MC_BigStats), envelope decided as an exact rational inequality; every replay also with all accessors read after every step, and once more with debug assertions on',
         "technique": 'TLC model checking of Moments.tla (orders 3, 4) + replay on Skewness/Kurtosis + TLC trace validation of recorded arbitrary-f64 histories in exact unbounded arithmetic (Trace_Moments.tla)',
         "title": "skewness and kurtosis equal the exact standardized moments",
         "mc": [MC_BIG, MC_BIGSTATS, MC_SEQ],
@@ -247,7 +247,7 @@ PROPS = {
         "assumptions": ["as C01"],
     },
     "C11": {
-        "level_text": 'MergeLaws action property in every family specification (empty source = identity, empty destination = copy, lengths add, source unchanged); at every merge of every generated history the real destination/source accessor vectors are compared bit for bit',
+        "level_text": 'MergeLaws action property in every family specification (empty source = identity, empty destination = copy, lengths add, source unchanged); at every merge of every generated history the real destination/source accessor vectors are compared bit for bit; two-valued full-mantissa samples of every length 2..40 merged with a fresh estimator both ways, bit for bit; lengths doubled beyond 2^53',
         "technique": 'TLC action properties + bitwise implementation-vs-implementation comparison at every generated merge',
         "title": "the empty estimator is an exact identity of merge; lengths add exactly",
         "mc": [MC_HM, MC_MM, MC_W, MC_C, MC_MERGE],
@@ -338,7 +338,7 @@ PROPS = {
         "assumptions": ["as C01"],
     },
     "C14": {
-        "level_text": 'MinMax.tla over tokens incl. +-inf, +-0, NaN: ExtremeIsDef (function of the non-NaN multiset), FromValueIsAdd; every sequence/chunking/merge tree/history replayed, all ingestion paths; long random histories (integers to 10^6, +-inf, -0.0, NaN; add/from_value/collect/extend/merge/clone and the stuttering checkpoint (JSON round trip) over six objects) recorded from the real code and validated by TLC against Trace_MinMax.tla, which asserts the definition after every event',
+        "level_text": 'MinMax.tla over tokens incl. +-inf, +-0, NaN: ExtremeIsDef (function of the non-NaN multiset), FromValueIsAdd; every sequence/chunking/merge tree/history replayed, all ingestion paths; long random histories (integers to 10^6, +-inf, -0.0, NaN; add/from_value/collect/extend/merge/clone and the stuttering checkpoint (JSON round trip) over six objects) recorded from the real code and validated by TLC against Trace_MinMax.tla, which asserts the definition after every event; batches of the trace also come from parallel iterators, from lazily sized iterators and with up to 39 values; Min / Max under the long-chunk ingestion behaviours',
         "technique": 'TLC model checking of MinMax.tla + exhaustive replay + TLC trace validation (Trace_MinMax.tla)',
         "title": "Min and Max return the exact extreme of everything seen, in any order",
         "mc": [MC_MM],
@@ -372,7 +372,7 @@ PROPS = {
                         "marker state is read from the public serde form (fields q, n, m)"],
     },
     "C07": {
-        "level_text": 'Quantile.tla small-sample path: code-shaped index formula equals the definitional sample quantile for every multiset and p of the grid (SmallPathDefs); all permutations x 31 p values (+ one ulp either side of boundaries) replayed',
+        "level_text": 'Quantile.tla small-sample path: code-shaped index formula equals the definitional sample quantile for every multiset and p of the grid (SmallPathDefs); all permutations x 31 p values (+ one ulp either side of boundaries) replayed; also under the denormal embedding (exactness-aware tolerance) and with debug assertions on',
         "technique": 'TLC model checking of the small-sample definitions + exhaustive replay of all 340 sequences x p grid',
         "title": "with fewer than five observations Quantile returns the exact sample quantile",
         "mc": [MC_QS],
@@ -396,7 +396,7 @@ PROPS = {
         "assumptions": ["marker state is read from the public serde form"],
     },
     "C06": {
-        "level_text": 'Histogram.tla: the transcribed library binary search equals the half-open-bin definition for every valid edge vector and every lattice sample (FindIsDef), bins are counts of accepted samples; find/add tables and add histories replayed on define_histogram! (LEN 1-4) and histogram_const (nightly); random LEN 10/100 histories validated by TLC as traces',
+        "level_text": 'Histogram.tla: the transcribed library binary search equals the half-open-bin definition for every valid edge vector and every lattice sample (FindIsDef), bins are counts of accepted samples; find/add tables and add histories replayed on define_histogram! (LEN 1-4) and histogram_const (nightly); random LEN 10/100 histories validated by TLC as traces; histogram_const histories (LEN 10, 100) validated by TLC as traces as well',
         "technique": 'TLC model checking of Histogram.tla + replay of find tables/histories + TLC trace validation (LEN 10, 100)',
         "title": "a histogram counts each sample in the unique half-open bin that contains it",
         "mc": [MC_HF1, MC_HF],
@@ -411,7 +411,7 @@ PROPS = {
                         "that returns a different one of several equal elements is caught by the replay, not by the model"],
     },
     "C12": {
-        "level_text": 'FromRanges (first-offence semantics) equals the validity definition for every list offered (TLC ASSUME over all lists); ConstWidthOK; every list incl. surplus tails replayed; with_const_width across 16 scales and LEN up to 100',
+        "level_text": 'FromRanges (first-offence semantics) equals the validity definition for every list offered (TLC ASSUME over all lists); ConstWidthOK; every list incl. surplus tails replayed; with_const_width across 16 scales and LEN up to 100; a scan with exactly one offence at every position (descent, NaN, both, truncation, surplus) for LEN 1, 4, 10, 100; histogram_const histories validated by TLC as traces as well',
         "technique": 'TLC evaluation of FromRangesIsDef over all lists + replay of every list',
         "title": "histogram construction accepts exactly the valid edge lists",
         "mc": [MC_HF1, MC_HF],
@@ -426,7 +426,7 @@ PROPS = {
         "assumptions": [],
     },
     "C13": {
-        "level_text": 'Histogram.tla actions Merge/AddAssign/MulAssign/Reset/Clone with CombineLaws, PanicChangesNothing; BinsAreCounts; views as exact rationals / float classes; every history replayed (panic flags, operands unchanged, merge == += == reversed), traces validated by TLC; counts up to 2^62 against the u128 bin semantics and the cross-checked variance definition',
+        "level_text": 'Histogram.tla actions Merge/AddAssign/MulAssign/Reset/Clone with CombineLaws, PanicChangesNothing; BinsAreCounts; views as exact rationals / float classes; every history replayed (panic flags, operands unchanged, merge == += == reversed), traces validated by TLC; counts up to 2^62 against the u128 bin semantics and the cross-checked variance definition; the same recorder runs on histogram_const in the nightly harness and TLC validates its histories too',
         "technique": 'TLC model checking of Histogram.tla + history replay + TLC trace validation',
         "title": "histogram merge, +=, *=, reset and views are exact bin-wise operations",
         "mc": [MC_HM],
@@ -441,7 +441,7 @@ PROPS = {
         "assumptions": [],
     },
     "C20": {
-        "level_text": 'Ingest.tla: the meaning of any mix of collect/extend/add is the add loop over the concatenation, concatenate! fields see everything once in order; every behaviour executed through the real impls of 12 types + 4 concatenate! structs (Probe) and compared bit for bit with the add loop; iterators that are not ExactSize and iterators that are not fused; short- and long-syntax concatenate! structs',
+        "level_text": 'Ingest.tla: the meaning of any mix of collect/extend/add is the add loop over the concatenation, concatenate! fields see everything once in order; every behaviour executed through the real impls of 12 types + 4 concatenate! structs (Probe) and compared bit for bit with the add loop; iterators that are not ExactSize and iterators that are not fused; short- and long-syntax concatenate! structs; the same replay on behaviours with chunks of 5..200 observations (increasing, decreasing, random; blocked and unrolled loops have their edge cases there)',
         "technique": 'TLC-generated ingestion behaviours + bitwise replay against the add loop',
         "title": "every ingestion path builds the same estimator; concatenate! adds nothing",
         "mc": [],
